@@ -26,6 +26,7 @@ struct CCfg
     int minD = 1, maxD = 3;
     double threshold = 0.4;
     int budget = 60;
+    bool counting = false;  // point system on the allocation-counting R^2 (C03's leak / double-free clause)
     std::string json() const
     {
         return "\"planner\":" + vf::jesc(planner) + ",\"map\":" + vf::jesc(map) + ",\"system\":" + vf::jesc(system) + ",\"stepSize\":" + vf::jnum(stepSize) + ",\"minD\":" + std::to_string(minD) +
@@ -124,7 +125,11 @@ struct CProblem
         }
         else
         {
-            auto r = std::make_shared<ob::RealVectorStateSpace>(2);
+            std::shared_ptr<ob::RealVectorStateSpace> r;
+            if (c.counting)
+                r = std::make_shared<vw::CountingR2>();
+            else
+                r = std::make_shared<ob::RealVectorStateSpace>(2);
             r->setBounds(b);
             space = r;
         }
@@ -289,6 +294,96 @@ struct Exec
     }
 };
 
+// every reported solution of `pd`: counts, start, control bounds, whole-step durations, step-by-step re-propagation, goal flag
+static void checkPaths(CProblem *P, const CCfg &cfg, ob::ProblemDefinition *pd, const std::function<void(const std::string &, const std::string &)> &fail, vf::Hash &obs)
+{
+    const std::string &pl = cfg.planner;
+    auto &sp = P->space;
+    for (auto &sol : pd->getSolutions())
+    {
+        auto *path = dynamic_cast<oc::PathControl *>(sol.path_.get());
+        if (!path)
+        {
+            fail("C02|not-a-control-path|" + pl, "reported solution is not a PathControl");
+            continue;
+        }
+        size_t n = path->getStateCount();
+        if (n == 0)
+        {
+            fail("C02|empty-path|" + pl, "empty solution path");
+            continue;
+        }
+        if (path->getControlCount() != n - 1 || path->getControlDurations().size() != n - 1)
+        {
+            fail("C02|counts|" + pl, std::to_string(n) + " states but " + std::to_string(path->getControlCount()) + " controls / " + std::to_string(path->getControlDurations().size()) + " durations");
+            continue;
+        }
+        if (!sp->equalStates(path->getState(0), pd->getStartState(0)) || !P->isValid(path->getState(0)))
+            fail("C02|not-at-start|" + pl, "path does not start at the (valid) start state");
+        auto &cb = P->cspace->getBounds();
+        for (size_t i = 0; i + 1 < n; ++i)
+        {
+            const double *u = path->getControl(i)->as<oc::RealVectorControlSpace::ControlType>()->values;
+            double dur = path->getControlDuration(i);
+            for (int k = 0; k < 2; ++k)
+                if (u[k] < cb.low[k] - 1e-12 || u[k] > cb.high[k] + 1e-12)
+                    fail("C02|control-out-of-bounds|" + pl, "control " + std::to_string(i) + " component " + std::to_string(k) + " = " + vf::jnum(u[k]) + " outside [" + vf::jnum(cb.low[k]) + "," + vf::jnum(cb.high[k]) + "]");
+            double stepsD = dur / cfg.stepSize;
+            long steps = std::lround(stepsD);
+            if (std::fabs(stepsD - steps) > 1e-9 || steps < 0)
+            {
+                fail("C02|duration-not-whole-steps|" + pl, "duration " + vf::jnum(dur) + " of segment " + std::to_string(i) + " is not a whole number of propagation steps of " + vf::jnum(cfg.stepSize));
+                continue;
+            }
+            // replay with the oracle's own copy of the system
+            double x, y, th = 0;
+            xy(sp.get(), path->getState(i), x, y);
+            if (P->unicycle)
+                th = path->getState(i)->as<ob::SE2StateSpace::StateType>()->getYaw();
+            ob::State *t = sp->allocState();
+            bool ok = true;
+            for (long s = 0; s < steps; ++s)
+            {
+                if (P->unicycle)
+                    stepUnicycle(x, y, th, u[0], u[1], cfg.stepSize);
+                else
+                    stepPoint(x, y, u[0], u[1], cfg.stepSize);
+                setXY(sp.get(), t, x, y, th);
+                if (!sp->satisfiesBounds(t) || !P->isValid(t))
+                {
+                    fail("C02|invalid-propagation-step|" + pl, "replaying control " + std::to_string(i) + ", propagation step " + std::to_string(s + 1) + " of " + std::to_string(steps) + " lands on an invalid state (" +
+                                                                   vf::jnum(x) + "," + vf::jnum(y) + ")");
+                    ok = false;
+                    break;
+                }
+            }
+            if (ok)
+            {
+                double nx, ny;
+                xy(sp.get(), path->getState(i + 1), nx, ny);
+                double nth = P->unicycle ? path->getState(i + 1)->as<ob::SE2StateSpace::StateType>()->getYaw() : 0;
+                double dth = std::fabs(nth - th);
+                dth = std::min(dth, 2 * M_PI - dth);
+                if (std::fabs(nx - x) > 1e-9 || std::fabs(ny - y) > 1e-9 || (P->unicycle && dth > 1e-9))
+                    fail("C02|replay-mismatch|" + pl, "applying control " + std::to_string(i) + " for " + std::to_string(steps) + " step(s) gives (" + vf::jnum(x) + "," + vf::jnum(y) + ") but the path's next state is (" +
+                                                          vf::jnum(nx) + "," + vf::jnum(ny) + ")");
+            }
+            sp->freeState(t);
+            obs.addd(u[0]);
+            obs.addd(u[1]);
+            obs.addd(dur);
+        }
+        const ob::State *last = path->getState(n - 1);
+        if (!sol.approximate_ && !pd->getGoal()->isSatisfied(last))
+            fail("C02|exact-not-in-goal|" + pl, "solution not flagged approximate ends outside the goal region");
+        if (sol.approximate_)
+            if (auto *gr = dynamic_cast<ob::GoalRegion *>(pd->getGoal().get()))
+                if (std::fabs(gr->distanceGoal(last) - sol.difference_) > gr->getThreshold() + 1e-9)
+                    fail("C02|approx-difference|" + pl, "approximate solution reports difference " + vf::jnum(sol.difference_) + " but its last state is " + vf::jnum(gr->distanceGoal(last)) + " from the goal");
+        obs.add(sol.approximate_);
+    }
+}
+
 static std::vector<vc::Point> execute(const Exec &e, const std::function<void(const std::string &, const std::string &)> &fail, uint64_t *obsOut = nullptr, long *evals = nullptr, int *solved = nullptr)
 {
     const std::string &pl = e.cfg.planner;
@@ -326,89 +421,7 @@ static std::vector<vc::Point> execute(const Exec &e, const std::function<void(co
     obs.add((int)(ob::PlannerStatus::StatusType)st);
     bool solStatus = (bool)st;
     // (status/flag coherence of control planners is C03's clause, not part of this property's statement)
-    for (auto &sol : P->pdef->getSolutions())
-    {
-        auto *path = dynamic_cast<oc::PathControl *>(sol.path_.get());
-        if (!path)
-        {
-            fail("C02|not-a-control-path|" + pl, "reported solution is not a PathControl");
-            continue;
-        }
-        size_t n = path->getStateCount();
-        if (n == 0)
-        {
-            fail("C02|empty-path|" + pl, "empty solution path");
-            continue;
-        }
-        if (path->getControlCount() != n - 1 || path->getControlDurations().size() != n - 1)
-        {
-            fail("C02|counts|" + pl, std::to_string(n) + " states but " + std::to_string(path->getControlCount()) + " controls / " + std::to_string(path->getControlDurations().size()) + " durations");
-            continue;
-        }
-        if (!sp->equalStates(path->getState(0), P->pdef->getStartState(0)) || !P->isValid(path->getState(0)))
-            fail("C02|not-at-start|" + pl, "path does not start at the (valid) start state");
-        auto &cb = P->cspace->getBounds();
-        for (size_t i = 0; i + 1 < n; ++i)
-        {
-            const double *u = path->getControl(i)->as<oc::RealVectorControlSpace::ControlType>()->values;
-            double dur = path->getControlDuration(i);
-            for (int k = 0; k < 2; ++k)
-                if (u[k] < cb.low[k] - 1e-12 || u[k] > cb.high[k] + 1e-12)
-                    fail("C02|control-out-of-bounds|" + pl, "control " + std::to_string(i) + " component " + std::to_string(k) + " = " + vf::jnum(u[k]) + " outside [" + vf::jnum(cb.low[k]) + "," + vf::jnum(cb.high[k]) + "]");
-            double stepsD = dur / e.cfg.stepSize;
-            long steps = std::lround(stepsD);
-            if (std::fabs(stepsD - steps) > 1e-9 || steps < 0)
-            {
-                fail("C02|duration-not-whole-steps|" + pl, "duration " + vf::jnum(dur) + " of segment " + std::to_string(i) + " is not a whole number of propagation steps of " + vf::jnum(e.cfg.stepSize));
-                continue;
-            }
-            // replay with the oracle's own copy of the system
-            double x, y, th = 0;
-            xy(sp.get(), path->getState(i), x, y);
-            if (P->unicycle)
-                th = path->getState(i)->as<ob::SE2StateSpace::StateType>()->getYaw();
-            ob::State *t = sp->allocState();
-            bool ok = true;
-            for (long s = 0; s < steps; ++s)
-            {
-                if (P->unicycle)
-                    stepUnicycle(x, y, th, u[0], u[1], e.cfg.stepSize);
-                else
-                    stepPoint(x, y, u[0], u[1], e.cfg.stepSize);
-                setXY(sp.get(), t, x, y, th);
-                if (!sp->satisfiesBounds(t) || !P->isValid(t))
-                {
-                    fail("C02|invalid-propagation-step|" + pl, "replaying control " + std::to_string(i) + ", propagation step " + std::to_string(s + 1) + " of " + std::to_string(steps) + " lands on an invalid state (" +
-                                                                   vf::jnum(x) + "," + vf::jnum(y) + ")");
-                    ok = false;
-                    break;
-                }
-            }
-            if (ok)
-            {
-                double nx, ny;
-                xy(sp.get(), path->getState(i + 1), nx, ny);
-                double nth = P->unicycle ? path->getState(i + 1)->as<ob::SE2StateSpace::StateType>()->getYaw() : 0;
-                double dth = std::fabs(nth - th);
-                dth = std::min(dth, 2 * M_PI - dth);
-                if (std::fabs(nx - x) > 1e-9 || std::fabs(ny - y) > 1e-9 || (P->unicycle && dth > 1e-9))
-                    fail("C02|replay-mismatch|" + pl, "applying control " + std::to_string(i) + " for " + std::to_string(steps) + " step(s) gives (" + vf::jnum(x) + "," + vf::jnum(y) + ") but the path's next state is (" +
-                                                          vf::jnum(nx) + "," + vf::jnum(ny) + ")");
-            }
-            sp->freeState(t);
-            obs.addd(u[0]);
-            obs.addd(u[1]);
-            obs.addd(dur);
-        }
-        const ob::State *last = path->getState(n - 1);
-        if (!sol.approximate_ && !P->pdef->getGoal()->isSatisfied(last))
-            fail("C02|exact-not-in-goal|" + pl, "solution not flagged approximate ends outside the goal region");
-        if (sol.approximate_)
-            if (auto *gr = dynamic_cast<ob::GoalRegion *>(P->pdef->getGoal().get()))
-                if (std::fabs(gr->distanceGoal(last) - sol.difference_) > gr->getThreshold() + 1e-9)
-                    fail("C02|approx-difference|" + pl, "approximate solution reports difference " + vf::jnum(sol.difference_) + " but its last state is " + vf::jnum(gr->distanceGoal(last)) + " from the goal");
-        obs.add(sol.approximate_);
-    }
+    checkPaths(P.get(), e.cfg, P->pdef.get(), fail, obs);
     if (obsOut)
         *obsOut = obs.h;
     if (evals)
@@ -460,6 +473,7 @@ static std::vector<CCfg> configs(const std::string &planner, bool thorough)
     return v;
 }
 
+#ifndef C02_NO_MAIN
 int main(int argc, char **argv)
 {
     ompl::msg::setLogLevel(ompl::msg::LOG_NONE);
@@ -601,3 +615,4 @@ int main(int argc, char **argv)
     };
     return vf::main(argc, argv, H);
 }
+#endif
